@@ -1,4 +1,4 @@
-import Polyseed.Model.Api
+import Polyseed.Model.Step
 import Polyseed.Gen.Registry
 import Polyseed.Gen.Consts
 /-!
@@ -106,7 +106,6 @@ def mkCfg : Cfg :=
   { strSize := Gen.STR_SIZE, sizeofData := Gen.SIZEOF_DATA, sizeofPoly := Gen.SIZEOF_POLY,
     sizeofPhrase := Gen.SIZEOF_PHRASE, numWords := Gen.NUM_WORDS, langs := Gen.registry }
 
-def langAt (cfg : Cfg) (i : Nat) : Lang := cfg.langs.getD i default
 
 def emit (evs : List Event) (res : String) : List String := evs.map showEvent ++ ["< " ++ res]
 
